@@ -633,7 +633,39 @@ def digest_cleared_after_writes(ctx, rule):
                 )
 
 
+def r3b_chunk_record_fresh(ctx, rule='C01.R3'):
+    corpus = ctx.corpus
+    snap = corpus.func('repository', 'Repository.snapshot')
+    producers = [f for f in snap.nested.values() if any(isinstance(n, ast.Attribute) and n.attr == 'chunkify' for n in walk_local(f.node))]
+    ctx.floor(rule, 'chunk producer', len(producers))
+    for f in producers:
+        puts = [c for c in calls_in(f.node) if isinstance(c.func, ast.Attribute) and c.func.attr in ('put', 'put_nowait') and c.args and isinstance(c.args[0], ast.Name)]
+        ctx.floor(rule, 'queue hand-over in the producer', len(puts))
+        for c in puts:
+            nm = c.args[0].id
+            defs = [a for a in walk_local(f.node) if isinstance(a, ast.Assign) and any(isinstance(t, ast.Name) and t.id == nm for t in a.targets)]
+            need = {'contents', 'index', 'location', 'counter', 'stream_start', 'stream_end'}
+            ok = len(defs) == 1 and isinstance(defs[0].value, ast.Call) and need <= {k.arg for k in defs[0].value.keywords} and isinstance(defs[0].value.func, ast.Name)
+            ctx.check(
+                ok,
+                rule,
+                f'{func_label(f)}|chunk-record-built-per-occurrence',
+                loc(f, c),
+                f'every chunk record handed to the workers is built by the record constructor in this iteration with all per-occurrence fields (counter, stream offsets, index, location, contents)',
+                f'the record handed to the workers (`{nm}`) is not freshly constructed with all per-occurrence fields for every occurrence (e.g. a cached record with only the offsets replaced): a repeated chunk keeps a stale counter / offsets and files are assembled in the wrong order',
+            )
+
+
+def r11_serialization(ctx):
+    from ..report import Relabel
+    from .c14 import r3_bytes_tagging
+
+    r3_bytes_tagging(Relabel(ctx, 'C01.R11'))
+
+
 def run(ctx):
+    r11_serialization(ctx)
+    r3b_chunk_record_fresh(ctx)
     p = r1_unique(ctx)
     r2_accounting(ctx, p)
     r3_order_key(ctx)
